@@ -33,23 +33,51 @@ COMPONENTS = {
 ASSUMPTIONS = ["Python has one low-power flag: HALT and OFF compare as 'not running'", "TEMP registers and raw F bits 2-7 "
                "are excluded, as in the project's own tools/llama_parity_sweep.py"]
 PROBES = ["prefix", "block_instr", "call_ret", "branch_taken_back", "lowpower", "scramble", "transplant", "imem_write",
-          "ext_write"]
+          "ext_write", "ended_at_noncanonical", "ended_at_reject"]
 FIELDS = ["pc", "opcode", "length", "BA", "I", "X", "Y", "U", "S", "PC", "FC", "FZ", "power", "writes", "error"]
 
 
 def batches(tier: str) -> List[Batch]:
+    # lock: all opcodes, hidden-state scrambles and state transplants; lock-clean: the same without faults;
+    # lock-tail: programs drawn only from opcodes with no recorded divergence, so that runs keep lockstep for
+    # their whole length and the faults land in long histories
     if tier == "quick":
-        return [Batch("lock", "py+rs-core", 9000, 50), Batch("lock-clean", "py+rs-core", 3000, 50, faulty=False)]
-    return [Batch("lock", "py+rs-core", 600000, 200), Batch("lock-clean", "py+rs-core", 200000, 200, faulty=False)]
+        return [Batch("lock", "py+rs-core", 1500, 50), Batch("lock-clean", "py+rs-core", 500, 50, faulty=False),
+                Batch("lock-tail", "py+rs-core", 700, 50)]
+    return [Batch("lock", "py+rs-core", 300000, 200), Batch("lock-clean", "py+rs-core", 100000, 200, faulty=False),
+            Batch("lock-tail", "py+rs-core", 200000, 200)]
+
+
+_DIVERGENT = None
+
+
+def _divergent_opcodes():
+    """Opcodes named by the recorded C06 findings (read from the committed file: generation is a pure
+    function of the seed and that file)."""
+    global _DIVERGENT
+    if _DIVERGENT is None:
+        import json
+        from ..runner import FINDINGS_FILE
+        ops = set()
+        try:
+            for f in json.loads(FINDINGS_FILE.read_text()).get("findings", []):
+                if f.get("property") == "C06":
+                    for o in f.get("where", {}).get("opcode", []) or []:
+                        ops.add(int(o, 16))
+        except Exception:
+            pass
+        _DIVERGENT = frozenset(ops)
+    return _DIVERGENT
 
 
 def generate(batch: str, r: Rng, idx: int, tier: str) -> Dict[str, Any]:
     n = r.choice([10, 20, 40, 60])
-    code, starts = core.gen_program(r.child("prog"), n, canon=True)
+    code, starts = core.gen_program(r.child("prog"), n, canon=True,
+                                    avoid=_divergent_opcodes() if batch == "lock-tail" else ())
     state = core.gen_state(r.child("state"))
     steps = r.choice([20, 60, 120])
     faults: List[list] = []
-    if batch == "lock":
+    if batch in ("lock", "lock-tail"):
         rf = r.child("faults")
         for _ in range(rf.range(0, 3)):
             at = rf.range(1, steps - 1)
@@ -87,6 +115,7 @@ def execute(scn: Dict[str, Any]) -> Dict[str, Any]:
     # ---- Python replica, segment by segment
     emu, bus = core.new_py_core(scn)
     py: List[list] = []
+    py_end = None
     cum: Dict[int, int] = {}
     done = 0
     segs: List[int] = []
@@ -95,7 +124,7 @@ def execute(scn: Dict[str, Any]) -> Dict[str, Any]:
     while done < scn["steps"]:
         nxt = faults[fi][0] if fi < len(faults) else scn["steps"]
         seg = max(0, min(nxt, scn["steps"]) - done)
-        recs = core.py_run(emu, bus, seg) if seg else []
+        recs = core.py_run(emu, bus, seg, stop_at=core.EXCLUDED) if seg else []
         for rec in recs:
             for a, v in rec[13]:
                 cum[a] = v
@@ -103,6 +132,10 @@ def execute(scn: Dict[str, Any]) -> Dict[str, Any]:
         segs.append(len(recs))
         done += seg
         if len(recs) < seg:
+            from sc62015.pysc62015.emulator import RegisterName as R
+            pc = emu.regs.get(R.PC) & 0xFFFFF
+            f0 = bus.rd(pc)
+            py_end = {"pc": pc, "first": bus.rd(pc + 1) if f0 in core.PRES else f0, "halted": bool(emu.state.halted)}
             break
         if fi < len(faults):
             emu, bus = _py_apply_fault(emu, bus, faults[fi], scn, cum)
@@ -150,7 +183,7 @@ def execute(scn: Dict[str, Any]) -> Dict[str, Any]:
                                                        "power": rs[-1][12] if rs else 0}])
                 slot = new_slot
             fi += 1
-    return {"py": py, "rs": rs}
+    return {"py": py, "rs": rs, "py_end": py_end}
 
 
 def check(scn: Dict[str, Any], hist: Dict[str, Any]) -> List[Dict[str, Any]]:
@@ -165,19 +198,29 @@ def check(scn: Dict[str, Any], hist: Dict[str, Any]) -> List[Dict[str, Any]]:
             # instruction; nothing to compare (run ends normally)
             hist["_py_reject"] = 1
             break
-        if b[14]:
-            viols.append(_viol(scn, k, "error", a, b, f"python executed it, rust error={b[14]}"))
-            break
         bad = None
         for idx in (0, 1, 3, 4, 5, 6, 7, 8, 9, 10, 11, 12, 13, 2):
             if a[idx] != b[idx]:
                 bad = idx
                 break
+        if bad is not None or b[14]:
+            # the instruction that was executed (a jump may have landed inside an instruction, or a block
+            # move may have rewritten the program): only canonical encodings are judged
+            if not core.canonical(_ins_bytes(a), a[0]):
+                hist["_noncanonical"] = 1
+                break
+        if b[14]:
+            viols.append(_viol(scn, k, "error", a, b, f"python executed it, rust error={b[14]}", py[k - 1] if k else None))
+            break
         if bad is not None:
-            viols.append(_viol(scn, k, FIELDS[bad], a, b, f"{FIELDS[bad]}: python {_s(a[bad])} rust {_s(b[bad])}"))
+            viols.append(_viol(scn, k, FIELDS[bad], a, b, f"{FIELDS[bad]}: python {_s(a[bad])} rust {_s(b[bad])}",
+                               py[k - 1] if k else None))
             break
     else:
-        if len(py) != len(rs):
+        end = hist.get("py_end")
+        if len(py) < len(rs) and ((py and py[-1][14]) or (end and end["first"] in core.EXCLUDED)):
+            hist["_py_reject"] = 1      # the reference stopped at bytes it rejects or at RESET/WAIT (not compared)
+        elif len(py) != len(rs):
             k = n
             viols.append({"cls": "diverge", "executor": "py+rs-core", "where": {"field": "run_length"},
                           "msg": f"replicas stopped after {len(py)} (python) / {len(rs)} (rust) steps", "at": k})
@@ -189,15 +232,33 @@ def _s(v):
     return t if len(t) < 90 else t[:87] + "..."
 
 
-def _viol(scn, k, field, a, b, msg):
+def _ins_bytes(a) -> List[int]:
+    """The bytes of the executed instruction as the Python replica fetched them."""
+    fetched = a[15] if len(a) > 15 else []
+    d = core.try_decode(list(fetched), a[0]) if fetched else None
+    return list(fetched[:d[0]]) if d else list(fetched)
+
+
+def _edge_pointer(scn, prev) -> bool:
+    """A pointer register within 3 bytes of either end of the 20-bit space before the instruction."""
+    if prev is not None:
+        ptrs = prev[5:9]
+    else:
+        rg = scn["state"]["regs"]
+        ptrs = [rg["X"], rg["Y"], rg["U"], rg["S"]]
+    return any(p <= 3 or p >= 0xFFFFC for p in ptrs)
+
+
+def _viol(scn, k, field, a, b, msg, prev=None):
     pc = a[0]
-    off = pc - core.CODE_LO
-    code = scn["code"]
-    bs = code[off:off + 7] if 0 <= off < len(code) else []
+    bs = _ins_bytes(a)
     pre = bs[0] if bs and bs[0] in core.PRES else None
     op = bs[1] if pre is not None and len(bs) > 1 else (bs[0] if bs else a[1])
     cls = "length" if field == "length" else "diverge"
-    return {"cls": cls, "executor": "py+rs-core", "where": {"field": field, "opcode": f"{op:02X}", "pre": pre is not None},
+    where = {"field": field, "opcode": f"{op:02X}", "pre": pre is not None}
+    if _edge_pointer(scn, prev):
+        where["edge_pointer"] = True
+    return {"cls": cls, "executor": "py+rs-core", "where": where,
             "msg": f"step {k} pc={pc:#x} bytes {' '.join(f'{x:02X}' for x in bs)}: {msg}", "at": k}
 
 
@@ -208,10 +269,10 @@ def stats(scn: Dict[str, Any], hist: Dict[str, Any]) -> Dict[str, Any]:
     code = scn["code"]
     wrote = False
     for rec in py:
-        off = rec[0] - core.CODE_LO
-        b0 = code[off] if 0 <= off < len(code) else 0
+        fb = rec[15] if len(rec) > 15 else [rec[1], 0]
+        b0 = fb[0]
         pre = b0 in core.PRES
-        op = code[off + 1] if pre and off + 1 < len(code) else b0
+        op = fb[1] if pre else b0
         extra[f"cell_{op:02X}_{'p' if pre else 'n'}"] = 1
         if pre:
             probes["prefix"] = probes.get("prefix", 0) + 1
@@ -232,6 +293,10 @@ def stats(scn: Dict[str, Any], hist: Dict[str, Any]) -> Dict[str, Any]:
         probes["scramble"] = faults["hidden_scramble"]
     if faults["state_transplant"]:
         probes["transplant"] = faults["state_transplant"]
+    if hist.get("_noncanonical"):
+        probes["ended_at_noncanonical"] = 1
+    if hist.get("_py_reject"):
+        probes["ended_at_reject"] = 1
     return {"nontrivial": len(py) >= 5 and wrote, "sig": digest([scn["code"], scn["state"]["regs"], scn["faults"]]),
             "faults": faults, "probes": probes, "cycles": len(py), "boundaries": len(py), "extra": extra}
 
